@@ -10,6 +10,11 @@ import (
 )
 
 func (s *Server) DocumentLink(ctx context.Context, params *protocol.DocumentLinkParams) ([]protocol.DocumentLink, error) {
+	// a feature switched off in the configuration answers nothing, also when it
+	// was switched off after the capabilities were announced
+	if !s.getSettings().Features.DocumentLinks {
+		return nil, nil
+	}
 	doc, ok := s.GetDocument(params.TextDocument.URI)
 	if !ok {
 		return nil, nil
